@@ -237,19 +237,30 @@ def load(
         path = Path(path)
 
     sample_format = icap_csv_sample_format(path)
+    # exports delimited by ';' may use ',' as the decimal mark, no other commas are written
+    with path.open("r", encoding="utf-8-sig") as fp:
+        text = fp.read()
+    comma_decimal = text.startswith(";") and "," in text
+
     if sample_format == "rows":
-        data = icap_csv_rows_read_data(path, use_analog=use_analog)
+        data = icap_csv_rows_read_data(
+            path, comma_decimal=comma_decimal, use_analog=use_analog
+        )
     elif sample_format == "columns":
-        data = icap_csv_columns_read_data(path, use_analog=use_analog)
+        data = icap_csv_columns_read_data(
+            path, comma_decimal=comma_decimal, use_analog=use_analog
+        )
     else:  # pragma: no cover
         raise ValueError("Unknown iCap CSV format.")
 
     if full:
         try:
             if sample_format == "rows":
-                params = icap_csv_rows_read_params(path)
+                params = icap_csv_rows_read_params(path, comma_decimal=comma_decimal)
             elif sample_format == "columns":
-                params = icap_csv_columns_read_params(path)
+                params = icap_csv_columns_read_params(
+                    path, comma_decimal=comma_decimal
+                )
             return data, params
         except (IndexError, ValueError):
             logger.warning(f"Unabled to read params from {path.name}")
